@@ -43,6 +43,7 @@ def one_case(run, specs, gamma, origin, check_tau=True):
     M = np.zeros((n, n, len(orders)))
     rho_int = 0.0
     tau_int = 0.0
+    tau_min = np.inf        # smallest value of 1/2 sum gamma_ab grad phi_a . grad phi_b on the grid (t+ is clipped at 0 by the library)
     # points per call: the whole grid (389 017 points) in one call for small bases, otherwise 100 003 or 60 000 — the result must
     # not depend on how the grid is split over calls
     chunk = len(pts) if n <= 4 else (100003 if n <= 9 else 60000)
@@ -54,11 +55,14 @@ def one_case(run, specs, gamma, origin, check_tau=True):
         for k, o in enumerate(orders):
             mono = np.prod((p - origin) ** o, axis=1)
             M[:, :, k] += w * (v * mono) @ v.T
+        tau_ref = np.zeros(len(p))
         for ax in range(3):
             o = np.zeros(3, dtype=int)
             o[ax] = 1
             d = evaluate_deriv_basis(basis, p, o, deriv_type="direct" if ax % 2 else "general")
             Tm += 0.5 * w * d @ d.T
+            tau_ref += 0.5 * np.einsum("ab,ap,bp->p", gamma, d, d)
+        tau_min = min(tau_min, float(tau_ref.min()))
         rho_int += w * float(np.sum(evaluate_density(gamma, basis, p, threshold=1e300)))
         tau_int += w * float(np.sum(evaluate_posdef_kinetic_energy_density(gamma, basis, p, threshold=1e300)))
     rep = {"case": "grid", "basis": core.describe_basis(specs), "gamma": gamma.tolist(), "origin": list(map(float, origin))}
@@ -77,7 +81,9 @@ def one_case(run, specs, gamma, origin, check_tau=True):
     if abs(rho_int - trS) > 1e-8 * (1 + abs(trS)):
         run.violation(f"∫ rho = {rho_int!r} differs from tr(gamma S) = {trS!r}", dict(rep, signature={"kind": "grid-density"}))
         ok = False
-    if check_tau and abs(tau_int - trT) > 1e-8 * (1 + abs(trT)):
+    if check_tau and tau_min < -1e-14:
+        run.count("t+ not compared: the kinetic energy density of this indefinite matrix is negative somewhere")
+    elif check_tau and abs(tau_int - trT) > 1e-8 * (1 + abs(trT)):
         run.violation(f"∫ t+ = {tau_int!r} differs from tr(gamma T) = {trT!r}", dict(rep, signature={"kind": "grid-tau"}))
         ok = False
     return ok
@@ -115,6 +121,20 @@ def check(run):
     gamma[1, 1] = 0.0
     one_case(run, specs, gamma, np.zeros(3), check_tau=False)
     run.count("zero-diagonal density matrix with non-negative density")
+    indefinite_tau_case(run)
+
+
+def indefinite_tau_case(run):
+    """an indefinite density matrix (a small negative occupation of one p function) whose kinetic energy density is non-negative
+    everywhere although one Cartesian contribution to it is negative near the centre: it must still integrate to tr(gamma T)"""
+    rng = run.rng
+    c = [core.snap(rng.uniform(-0.3, 0.3), 8) for _ in range(3)]
+    specs = [ShellSpec(0, [c[0] + 0.2, c[1] - 0.1, c[2] + 0.15], [0.3], [[1.0]]), ShellSpec(1, c, [2.0, 0.9], [[0.6], [0.5]])]
+    occ = [1.0, -0.05, 0.8, 0.3]
+    k = rng.randrange(3)
+    occ[1], occ[1 + k] = occ[1 + k], occ[1]
+    run.count("indefinite density matrix with non-negative kinetic energy density")
+    return one_case(run, specs, np.diag(occ), np.zeros(3))
 
 
 def replay(run, rep):
